@@ -398,6 +398,19 @@ std::vector<Scen> Scenarios(int tip, bool big)
     return v;
 }
 
+// small list for the checkpoints where a file ends exactly at tip-287
+std::vector<Scen> BoundaryScenarios(int tip)
+{
+    std::vector<Scen> v;
+    for (int m : {tip, tip - 287, tip - 288, tip - 289}) { Scen s; s.mode = 1; s.manual = m; v.push_back(s); }
+    for (int u : {3, 5}) { Scen s; s.mode = 0; s.usage = u; v.push_back(s); }
+    { Scen s; s.mode = 0; s.usage = 5; s.locks = {tip - 277}; v.push_back(s); }   // lock whose buffer ends at tip-288
+    { Scen s; s.mode = 0; s.usage = 5; s.locks = {tip - 276}; v.push_back(s); }
+    { Scen s; s.mode = 1; s.manual = tip; s.locks = {tip - 287}; v.push_back(s); }
+    for (size_t i = 0; i < v.size(); i++) v[i].real_files = (i % 4 == 0);
+    return v;
+}
+
 } // namespace
 
 int main(int argc, char** argv)
@@ -441,14 +454,25 @@ int main(int argc, char** argv)
             if (!bm.m_opts.fast_prune || !bm.IsPruneMode() || bm.GetPruneTarget() != 550 * MIB) { printf("HARNESS-ERROR C19 -fastprune/-prune did not reach the block manager\n"); return 2; }
         }
         std::set<int> done;
+        int boundary_hits = 0;
         const std::set<int> TIPS = tips_of(L);
         auto checkpoint = [&]() {
             const int tip = node.height();
-            if (!TIPS.count(tip) || done.count(tip) || cut) return;
+            if (done.count(tip) || cut) return;
+            // besides the fixed tips: the first two tips at which some block file ends exactly at tip-287 (the oldest
+            // block that must be kept) - the file before it is the newest one that may go
+            bool boundary = false;
+            if (!TIPS.count(tip)) {
+                if (boundary_hits >= 2 || tip < 289) return;
+                LOCK(cs_main);
+                for (auto& fi : node.chainman().m_blockman.m_blockfile_info) if (fi.nSize && (int)fi.nHeightLast == tip - 287) boundary = true;
+                if (!boundary) return;
+                boundary_hits++;
+            }
             if (only && std::string(only).find(":" + std::to_string(tip)) == std::string::npos) return;
             done.insert(tip);
             if (ck::ThreadCount() != 1) { printf("HARNESS-ERROR C19 process is not single-threaded before fork\n"); exit(2); }
-            std::vector<Scen> sc = Scenarios(tip, big);
+            std::vector<Scen> sc = boundary ? BoundaryScenarios(tip) : Scenarios(tip, big);
             if (const char* mj = getenv("VX_C19_MAXJOBS")) sc.resize(std::min<size_t>(sc.size(), atoi(mj)));
             {
                 // warm-up in the parent (first-use initialisation of filesystem/locale code is then inherited by the forks)
@@ -477,7 +501,7 @@ int main(int argc, char** argv)
             }
             int files = 0;
             { LOCK(cs_main); for (auto& fi : node.chainman().m_blockman.m_blockfile_info) files += fi.nSize > 0; }
-            printf("layout %s tip %d: %zu scenarios, %d block files, %.1fs\n", L.name.c_str(), tip, sc.size(), files, vx::elapsed());
+            printf("layout %s tip %d%s: %zu scenarios, %d block files, %.1fs\n", L.name.c_str(), tip, boundary ? " (file ends at tip-287)" : "", sc.size(), files, vx::elapsed());
         };
         if (!L.shuffled) {
             for (int h = 1; h <= MAXH && !cut; h++) {
@@ -524,7 +548,7 @@ int main(int argc, char** argv)
     E.rule = std::string("3 block-file layouts (64 KiB files: ~40 small blocks per file / 1-3 large blocks per file / reversed delivery in groups of 6 with stale siblings) x tips ") + (big ? "{288,289,300,400,600,700} (large) / {289,400,700} (small) / {288,300,700} (shuffled)" : "{400,700} (large) / {700}") + " x scenarios: " +
              (big ? "automatic pass at target 550 MiB x recorded usage {0.4T,T-20MiB,T-8MiB,T+1MiB,1.3T,3T} x prune-lock sets {none, each of 0,1,12,50,tip-300,tip-289,tip-288,tip-277,tip,INT_MAX, 3 pairs with 50} (+ snapshot base {110,299} x 3 lock sets, headers 3 ahead, targets 600/700); manual height {1,2,50,tip/2,tip-289,tip-288,tip-287,tip,tip+10} x {no lock, each single lock} (+ snapshot bases); reorg depth {1,2,3,15} x lock {tip..tip-3,tip-14..tip-16,50,INT_MAX}"
                   : "automatic pass at 550 MiB x usage {0.4T,T+1MiB,3T} x 5 lock sets x snapshot base {none,299} (+3 extra); manual height {1,tip-288,tip} x 3 lock sets x snapshot {none,110} (+2 extra); reorg depth {3,15} x lock {tip,tip-14,50}") +
-             ", each followed (reorg) by 300 blocks of growth and a manual prune. Every scenario runs in a fork of the node at that tip; every 4th one and all reorgs also check the files on disk. distinct_nontrivial = distinct scenarios in which files were removed or a lock/snapshot base was the binding constraint";
+             ", each followed (reorg) by 300 blocks of growth and a manual prune. At the first two tips per layout where a block file ends exactly at tip-287, 9 boundary scenarios (manual at tip/tip-287/tip-288/tip-289, over-target automatic passes, locks at tip-277/tip-276/tip-287). Every scenario runs in a fork of the node at that tip; every 4th one and all reorgs also check the files on disk. distinct_nontrivial = distinct scenarios in which files were removed or a lock/snapshot base was the binding constraint";
     E.assume("block-file sizes are scaled in metadata only (CBlockFileInfo nSize/nUndoSize) to reach usage levels around 550-700 MiB; the unvalidated snapshot chainstate is emulated by setting the chainstate's snapshot base hash and assumeutxo state (regtest's assumeutxo commitments belong to a different chain); the node is in initial block download (tip older than a day under mock time)");
     const char* miss = nullptr;
     if (!cut && vx::rep().violations == 0) {
